@@ -16,6 +16,7 @@ mod c14;
 mod c13;
 mod c12;
 mod c06;
+mod c07;
 
 use common::Case;
 use std::fs;
@@ -33,6 +34,7 @@ fn header(prop: &str) -> &'static str {
         "C13" | "C13D" => "From TSG Require Import Model.Stdlib.\n",
         "C12" => "From TSG Require Import Model.HashOrder.\n",
         "C06" => "From TSG Require Import Model.Checker.\n",
+        "C07" | "C05p" => "From TSG Require Import Model.ParserObs.\n",
         _ => "",
     }
 }
@@ -92,6 +94,8 @@ fn main() {
                 "C13" | "C13D" => c13::gen(&mut rng, n),
                 "C12" => c12::gen(&mut rng, n),
                 "C06" => c06::gen(&mut rng, n),
+                "C07" => c07::gen(&mut rng, n),
+                "C05p" => c07::gen_malformed(&mut rng, n),
                 _ => { eprintln!("unknown property {}", prop); std::process::exit(2) }
             };
             write_cases(&prop, &cases, shards, &out);
@@ -121,6 +125,7 @@ fn main() {
                 "C13" | "C13D" => c13::replay(&j["case"]),
                 "C12" => c12::replay(&j["case"]),
                 "C06" => c06::replay(&j["case"]),
+                "C07" | "C05p" => c07::replay(&j["case"]),
                 _ => { eprintln!("unknown property {}", prop); std::process::exit(2) }
             };
             write_cases(&prop, &[case], 1, &out);
